@@ -285,9 +285,10 @@ def oracle(case, o):
         if [s for s, _ in src] != starts:
             return f"multicast(factory, mapper): source subscribed at {[s for s, _ in src]}, subscriptions at {starts}"
         return None
+    raw_exp = []
     if case["wrap"] == "raw":
         # O2: one source subscription per effective connect, from the connect to its disconnect / the source's end
-        connected, exp, handle_of, cur = False, [], [], None
+        connected, exp, handle_of, cur = False, raw_exp, [], None
         for t, x in case["ops"]:
             if x[0] == "connect":
                 if not connected:
@@ -393,8 +394,14 @@ def oracle(case, o):
             else:
                 # the history's calls at an instant run before the cold messages due at that instant
                 # (a terminal due at `end` was delivered iff it ended the subscription itself: somebody received it then, or no call is there)
-                ender = {"raw": "disconnect", "refcount": "unsub"}.get(case["wrap"])
-                ended_by_call = any(tt == end and xx[0] == ender for tt, xx in case["ops"]) or end == case["horizon"]
+                if case["wrap"] == "raw":  # an effective disconnect() of this very connection at that instant
+                    k = src.index([s, u]) if [s, u] in src else -1
+                    ended_by_call = 0 <= k < len(raw_exp) and raw_exp[k][1] == end
+                elif case["wrap"] == "refcount":  # a live subscriber's unsubscribe call at that instant
+                    ended_by_call = any(v[1] == end and v[2] == "call" for v in pres.values())
+                else:
+                    ended_by_call = False
+                ended_by_call = ended_by_call or end == case["horizon"]
                 seen_then = any([at, n] in lg for lg in o["out"].values())
                 inside = s < at < end or (at == end and n[0] != "N" and (seen_then or not ended_by_call))
             if inside:
